@@ -272,7 +272,14 @@ def e2e(ctx, descs, bad_rate):
                 del names[g]
             else:
                 names[g] = [bn for bn in names[g] if (g, bn) not in predefined]
-        for route in ("file", "splicer_code"):
+        has_own_splicer_key = False
+        try:
+            has_own_splicer_key = bool((yaml.safe_load(open(ypath)) or {}).get("splicer"))
+        except Exception:
+            pass
+        # "yaml-files": the description's `splicer:` key lists TWO files per language, the chosen blocks alternate between them
+        # (so both files have blocks under the same leading name components)
+        for route in ("file", "splicer_code") + (() if has_own_splicer_key else ("yaml-files",)):
             chosen = {}
             uid = 0
             tree = {}
@@ -300,6 +307,25 @@ def e2e(ctx, descs, bad_rate):
                                 fp.write("".join(l + "\n" for l in body))
                                 fp.write("%s splicer end %s\n\nstray text\n" % (lead[g], bn))
                     extra.append(fn)
+            elif route == "yaml-files":
+                ext = {"c": ".c", "f": ".f", "py": ".py", "lua": ".lua"}
+                lead = {"c": "//", "f": "!", "py": "//", "lua": "--"}
+                listed = {}
+                for g in names:
+                    mine = [(bn, body) for (gg, bn), (body, _) in chosen.items() if gg == g]
+                    for half in (0, 1):
+                        fn = os.path.join(d1, "user_part%d%s" % (half, ext[g]))
+                        with open(fn, "w", encoding="utf-8") as fp:
+                            fp.write("%s part %d\n" % (lead[g], half))
+                            for bn, body in mine[half::2]:
+                                fp.write("%s splicer begin %s\n" % (lead[g], bn))
+                                fp.write("".join(l + "\n" for l in body))
+                                fp.write("%s splicer end %s\n" % (lead[g], bn))
+                        listed.setdefault(g, []).append(fn)
+                fn = os.path.join(d1, "user_splicer_files.yaml")
+                with open(fn, "w", encoding="utf-8") as fp:
+                    yaml.safe_dump({"splicer": listed}, fp)
+                extra.append(fn)
             else:
                 fn = os.path.join(d1, "user_splicer_code.yaml")
                 with open(fn, "w", encoding="utf-8") as fp:
@@ -388,7 +414,7 @@ def classify(f):
     removing the known-bad lines' effect accounts for it: every differing line is a TAB/trailing-plus line."""
     if f.get("kind") != "block-differs":
         return None
-    if (f.get("route") in ("file", "splicer_code") and f.get("baseline") is not None and norm(f["found"]) == norm(f["baseline"])
+    if (f.get("route") in ("file", "splicer_code", "yaml-files") and f.get("baseline") is not None and norm(f["found"]) == norm(f["baseline"])
             and re.match(r"class\.\w+\.method\.(get|set)_\w+$", f["block"]) and "SH_this->" in "".join(f["found"])):
         return {KF_GETSET}
     sup, found = norm(f["supplied"]), norm(f["found"])
